@@ -124,6 +124,9 @@ func vReadmeOps() []vOp {
 		{q: `query($j: JSON) { me { tag(meta: $j) phone } }`, vars: func() map[string]interface{} {
 			return map[string]interface{}{"j": map[string]interface{}{"a": []interface{}{1, "x"}}}
 		}},
+		// introspection fields next to ordinary ones
+		{q: `{ __schema { queryType { name } } me { name phone } }`},
+		{q: `{ me { phone } __type(name: "Human") { name } }`},
 		// id selected by the client next to a fragment on the same object
 		{q: `{ me { id ...F } } fragment F on Human { name phone }`},
 		{q: `{ getHumans { ... on Human { phone friends { ...G id } } id } } fragment G on Human { phone }`},
@@ -230,6 +233,15 @@ func vCheckOne(w *vWorld, cfg vConfig, op vOp, vars map[string]interface{}, sdls
 		data, _ := out["data"].(map[string]interface{})
 		verifAssert(data != nil, "data is present")
 		if data != nil {
+			// introspection fields selected next to ordinary ones are answered by the gateway itself
+			// (their content is the subject of C16): here they only have to be there
+			for k := range exp {
+				if len(k) > 2 && k[:2] == "__" && k != "__typename" {
+					verifAssert(data[k] != nil, "introspection fields next to ordinary fields are answered: "+k)
+					delete(exp, k)
+					delete(data, k)
+				}
+			}
 			vPrune(data)
 			vAssertSame("", data, exp)
 		}
